@@ -429,15 +429,20 @@ def parseHeadersIcap (status : Nat) (hdr body trailer : Bool) : Op :=
 
 /-! ### exceptions and the end of the job -/
 
-/-- ModXact::swanSong() + Xaction::swanSong(): tellQueryAborted when no answer was sent -/
+/-- Xaction::swanSong(): tellQueryAborted() when no answer was sent; the connection and the job are gone -/
+def tellAbortedAndStop : Op := fun s =>
+  { s with stopped := true, haveConn := false, readerOn := false, writerBusy := false,
+           answer := if s.answer == .none then .aborted else s.answer }
+
+/-- an exception leaving swanSong() is not caught by the job call wrapper (callEnd() runs outside its try block): FATAL -/
+def crashStop : Op := fun s => { s with thrown := false, stopped := true, crashed := true }
+
+/-- ModXact::swanSong() + Xaction::swanSong() -/
 def swanSong : Op := fun s =>
   let s1 := stopWriting false { s with thrown := false }
-  -- an exception leaving swanSong() is not caught by the job call wrapper (callEnd() runs outside its try block): FATAL
-  if s1.thrown then { s1 with thrown := false, stopped := true, crashed := true } else
+  if s1.thrown then crashStop s1 else
   let s2 := stopSending false s1
-  if s2.thrown then { s2 with thrown := false, stopped := true, crashed := true } else
-  { s2 with stopped := true, haveConn := false, readerOn := false, writerBusy := false,
-            answer := if s2.answer == .none then .aborted else s2.answer }
+  if s2.thrown then crashStop s2 else tellAbortedAndStop s2
 
 /-- a half-received adapted head is dropped (only in source variants that do so) -/
 def dropHead : Op := fun s => { s with head := .none, sending := .undecided }
